@@ -33,11 +33,11 @@ Section Py.
        : res (list (Z * Z)) :=
        match fuel_ with
        | O => Raise OutOfFuel
-       | S fuel__ =>
+       | S fuelR =>
          if (idx <=? b) then (let val := (if (idx <? (py_len sb)) then (py_get sb idx) else None) in (if ((pred val) && (idx <? b)) then (let start := (if (duration =? 0) then (let start := idx in start) else start) in
-      (let duration := (duration + 1) in (let idx := (idx + 1) in (loop1 fuel__ idx duration start intervals)))) else (if (duration >? 0) then (if (duration >=? m) then (let start := (if (start <? sI) then (let start := sI in start) else start) in
+      (let duration := (duration + 1) in (let idx := (idx + 1) in (loop1 fuelR idx duration start intervals)))) else (if (duration >? 0) then (if (duration >=? m) then (let start := (if (start <? sI) then (let start := sI in start) else start) in
       (let current_idx := idx in (let current_idx := (if (current_idx >? eI) then (let current_idx := eI in current_idx) else current_idx) in
-      (t__3 <- (Scoreboard_idxToDate_py sd ed r size start false) ;; (t__4 <- (Scoreboard_idxToDate_py sd ed r size current_idx false) ;; (let intervals := intervals ++ [(t__3, t__4)] in (let duration := 0 in (let start := 0 in (let idx := (idx + 1) in (loop1 fuel__ idx duration start intervals)))))))))) else (let duration := 0 in (let start := 0 in (let idx := (idx + 1) in (loop1 fuel__ idx duration start intervals))))) else (let idx := (idx + 1) in (loop1 fuel__ idx duration start intervals)))))
+      (tmp3 <- (Scoreboard_idxToDate_py sd ed r size start false) ;; (tmp4 <- (Scoreboard_idxToDate_py sd ed r size current_idx false) ;; (let intervals := intervals ++ [(tmp3, tmp4)] in (let duration := 0 in (let start := 0 in (let idx := (idx + 1) in (loop1 fuelR idx duration start intervals)))))))))) else (let duration := 0 in (let start := 0 in (let idx := (idx + 1) in (loop1 fuelR idx duration start intervals))))) else (let idx := (idx + 1) in (loop1 fuelR idx duration start intervals)))))
          else (Ok intervals)
        end).
 
